@@ -20,7 +20,7 @@ import (
 	"verif/mc/refmodel"
 )
 
-var ops = []string{"inject", "device-apply", "spec-apply", "host-renumber", "host-retype", "write-back", "inject-both", "inject-other", "inject-two-specs"}
+var ops = []string{"inject", "device-apply", "spec-apply", "host-renumber", "host-retype", "write-back", "inject-both", "inject-other", "inject-two-specs", "inject-failing"}
 
 type Case struct {
 	Version  string   `json:"declared_version"`
@@ -218,6 +218,17 @@ func eval(c Case, dir string) hx.Result {
 					}
 				}
 				injections++
+			case "inject-failing":
+				// a request that fails (one name does not resolve) must leave nothing behind: neither in
+				// the OCI spec passed in nor in the cache (later injections of the history are judged as always)
+				g := initial()
+				unres, ferr := cache.InjectDevices(g, q, "vendor.com/class=no-such-device", "second.org/class=dev2")
+				if ferr == nil || len(unres) != 1 {
+					return fail("failing-injection-accepted", fmt.Sprintf("a request with an unknown device returned %v, %v", unres, ferr), step, nil, nil)
+				}
+				if ok, where := refmodel.OCIEqual(initial(), g); !ok {
+					return fail("failing-injection-modified-oci-spec:"+where, "a failed injection changed the OCI spec", step, refmodel.Normalise(initial()), refmodel.Normalise(g))
+				}
 			case "device-apply":
 				applyErr = cache.GetDevice(q).ApplyEdits(got)
 				wantEdits = rawCopy().Devices[0].ContainerEdits
